@@ -119,16 +119,29 @@ class SimRaw(io.RawIOBase):
     def close(self):
         if not self.closed:
             self.fs.last_counts[self.path] = (self.nwrite, self.nread)
+            if self._w:
+                self.fs.last_write_calls = self.nwrite
+                self.fs.write_handles_closed += 1
+            else:
+                self.fs.last_read_calls = self.nread
         super().close()
 
 
 class SimFS:
-    def __init__(self, root="/simfs"):
+    def __init__(self, root="/simfs", real_dir=None):
+        # real_dir: pass-through mode.  Paths under the root are mapped into a real scratch
+        # directory and no fault is injected; used when the code under test needs something the
+        # in-memory layer cannot offer (a real file descriptor).
+        self.real_dir = real_dir
         self.root = root.rstrip("/")
         self.files = {}
         self.armed = {}
         self.stats = Counter()
         self.last_counts = {}
+        self.last_write_calls = 0
+        self.last_read_calls = 0
+        self.write_handles_closed = 0
+        self.armed_next = {}  # "w" / "r" -> plan for the next open of that kind, whatever its path
         self._orig_open = None
         self._orig_exists = None
         self._orig_isfile = None
@@ -157,15 +170,100 @@ class SimFS:
             return fs.open(os.fspath(file), mode, buffering, encoding, errors, newline)
 
         def sim_exists(p):
+            if fs.real_dir and fs.owns(p):
+                return os.fspath(p) == fs.root or fs._orig_exists(fs._real(p))
             if fs.owns(p):
                 return os.fspath(p) in fs.files or os.fspath(p) == fs.root
             return fs._orig_exists(p)
 
         def sim_isfile(p):
+            if fs.real_dir and fs.owns(p):
+                return fs._orig_isfile(fs._real(p))
             if fs.owns(p):
                 return os.fspath(p) in fs.files
             return fs._orig_isfile(p)
 
+        # a refactored dump may write a temporary file and rename it, remove a stale file,
+        # create the directory or ask for the size: keep such code working on the simulated
+        # tree (a FileNotFoundError from the *real* file system would be a false alarm)
+        self._orig_os = {n: getattr(os, n) for n in ("replace", "rename", "remove", "unlink", "makedirs", "mkdir", "listdir", "stat")}
+        self._orig_getsize = os.path.getsize
+        self._orig_isdir = os.path.isdir
+
+        def _p(x):
+            x = os.fspath(x)
+            return x.decode() if isinstance(x, bytes) else x
+
+        def sim_replace(src, dst, *a, **k):
+            if fs.real_dir and (fs.owns(src) or fs.owns(dst)):
+                return self._orig_os["replace"](fs._real(src) if fs.owns(src) else src, fs._real(dst) if fs.owns(dst) else dst)
+            if fs.owns(src) or fs.owns(dst):
+                if not (fs.owns(src) and fs.owns(dst)):
+                    raise OSError(errno.EXDEV, "cross-device link between simulated and real file system")
+                if _p(src) not in fs.files:
+                    raise FileNotFoundError(errno.ENOENT, "No such file or directory", _p(src))
+                fs.files[_p(dst)] = fs.files.pop(_p(src))
+                fs.stats["renames"] += 1
+                return None
+            return self._orig_os["replace"](src, dst, *a, **k)
+
+        def sim_remove(path, *a, **k):
+            if fs.real_dir and fs.owns(path):
+                return self._orig_os["remove"](fs._real(path))
+            if fs.owns(path):
+                if _p(path) not in fs.files:
+                    raise FileNotFoundError(errno.ENOENT, "No such file or directory", _p(path))
+                del fs.files[_p(path)]
+                return None
+            return self._orig_os["remove"](path, *a, **k)
+
+        def sim_makedirs(path, *a, **k):
+            if fs.owns(path):
+                return None
+            return self._orig_os["makedirs"](path, *a, **k)
+
+        def sim_mkdir(path, *a, **k):
+            if fs.owns(path):
+                return None
+            return self._orig_os["mkdir"](path, *a, **k)
+
+        def sim_listdir(path="."):
+            if fs.owns(path):
+                pre = _p(path).rstrip("/") + "/"
+                return sorted({f[len(pre) :].split("/")[0] for f in fs.files if f.startswith(pre)})
+            return self._orig_os["listdir"](path)
+
+        def sim_stat(path, *a, **k):
+            if fs.real_dir and fs.owns(path) and _p(path) != fs.root:
+                return self._orig_os["stat"](fs._real(path))
+            if fs.owns(path):
+                if _p(path) in fs.files:
+                    return os.stat_result((0o100644, 0, 0, 1, 0, 0, len(fs.files[_p(path)]), 0, 0, 0))
+                if _p(path) == fs.root or any(f.startswith(_p(path).rstrip("/") + "/") for f in fs.files):
+                    return os.stat_result((0o040755, 0, 0, 1, 0, 0, 0, 0, 0, 0))
+                raise FileNotFoundError(errno.ENOENT, "No such file or directory", _p(path))
+            return self._orig_os["stat"](path, *a, **k)
+
+        def sim_getsize(path):
+            if fs.owns(path):
+                return sim_stat(path).st_size
+            return self._orig_getsize(path)
+
+        def sim_isdir(path):
+            if fs.owns(path):
+                return _p(path) == fs.root or any(f.startswith(_p(path).rstrip("/") + "/") for f in fs.files)
+            return self._orig_isdir(path)
+
+        os.replace = sim_replace
+        os.rename = sim_replace
+        os.remove = sim_remove
+        os.unlink = sim_remove
+        os.makedirs = sim_makedirs
+        os.mkdir = sim_mkdir
+        os.listdir = sim_listdir
+        os.stat = sim_stat
+        os.path.getsize = sim_getsize
+        os.path.isdir = sim_isdir
         builtins.open = sim_open
         io.open = sim_open
         os.path.exists = sim_exists
@@ -177,17 +275,36 @@ class SimFS:
             io.open = self._orig_io_open
             os.path.exists = self._orig_exists
             os.path.isfile = self._orig_isfile
+            for n, f in self._orig_os.items():
+                setattr(os, n, f)
+            os.path.getsize = self._orig_getsize
+            os.path.isdir = self._orig_isdir
             self._orig_open = None
 
     def arm(self, path, **plan):
         """Fault plan consumed by the next open() of `path`."""
         self.armed[path] = plan
 
+    def arm_next(self, kind, **plan):
+        """Fault plan for the next file opened for writing (kind "w") or reading (kind "r")
+        anywhere under the root: the code under test decides which path it really writes
+        (it may go through a temporary file and rename it)."""
+        self.armed_next[kind] = plan
+
     def disarm(self):
         self.armed.clear()
+        self.armed_next.clear()
+
+    def _real(self, path):
+        return os.path.join(self.real_dir, os.fspath(path)[len(self.root) :].lstrip("/").replace("/", "__"))
 
     def open(self, path, mode="r", buffering=-1, encoding=None, errors=None, newline=None):
         self.stats["opens"] += 1
+        if self.real_dir:
+            self.armed.pop(path, None)
+            self.armed_next.clear()
+            self.stats["passthrough_opens"] += 1
+            return self._orig_open(self._real(path), mode, buffering, encoding, errors, newline)
         m = set(mode)
         binary = "b" in m
         plus = "+" in m
@@ -200,6 +317,9 @@ class SimFS:
         if reading and not (writing or appending or creating) and path not in self.files:
             raise FileNotFoundError(errno.ENOENT, "No such file or directory", path)
         plan = self.armed.pop(path, None)
+        if plan is None:
+            kind_ = "w" if (writing or appending or creating or plus) else "r"
+            plan = self.armed_next.pop(kind_, None)
         if plan and plan.get("fail_open"):
             self.stats["open_errors_injected"] += 1
             raise OSError(plan.get("errno", errno.EACCES), "injected open error", path)
@@ -238,9 +358,16 @@ class SimFS:
 
     # -- helpers for the harness --------------------------------------------------
     def read_bytes(self, path):
+        if self.real_dir:
+            with self._orig_open(self._real(path), "rb") as f:
+                return f.read()
         return bytes(self.files[path])
 
     def write_bytes(self, path, data):
+        if self.real_dir:
+            with self._orig_open(self._real(path), "wb") as f:
+                f.write(data)
+            return
         self.files[path] = bytearray(data)
 
     def snapshot(self):
